@@ -74,8 +74,8 @@ var c03Kinds = []struct {
 	{"string", []interface{}{"", "a", "10"}},
 	{"boolean", []interface{}{true, false, true}},
 	{"null", []interface{}{nil, nil, nil}},
-	{"array", []interface{}{A{}, A{1.0}, A{1.0, "a"}}},
-	{"object", []interface{}{O{}, O{"a": 1.0}, O{"a": 1.0, "b": "x"}}},
+	{"array", []interface{}{A{}, A{nil}, A{1.0, "a"}}},
+	{"object", []interface{}{O{}, O{"a": nil}, O{"a": 1.0, "b": "x"}}},
 	{"function", []interface{}{"fn0", "fn1", "fn2"}},
 	{"missing", []interface{}{"miss", "miss", "miss"}},
 }
@@ -118,8 +118,8 @@ func c03Operand(k, vi int, viaInput bool, name string, doc O, binds *[]jast.Node
 func c03Table(i int64) (jast.Node, O, string) {
 	// decode i -> (op, kl, kr, vl, vr, mode)
 	nk := int64(len(c03Kinds))
-	mode := i % 2
-	i /= 2
+	mode := i % 4 // 0 both literal, 1 both through the input, 2 / 3 one of each
+	i /= 4
 	vr := int(i % 3)
 	i /= 3
 	vl := int(i % 3)
@@ -131,8 +131,8 @@ func c03Table(i int64) (jast.Node, O, string) {
 	op := c03Ops[i%int64(len(c03Ops))]
 	doc := O{}
 	var binds []jast.Node
-	l := c03Operand(kl, vl, mode == 1, "l", doc, &binds)
-	r := c03Operand(kr, vr, mode == 1, "r", doc, &binds)
+	l := c03Operand(kl, vl, mode == 1 || mode == 2, "l", doc, &binds)
+	r := c03Operand(kr, vr, mode == 1 || mode == 3, "r", doc, &binds)
 	var e jast.Node
 	switch op {
 	case "..":
@@ -314,10 +314,10 @@ var c03Probes = []struct {
 }
 
 func init() {
-	nTable := int64(len(c03Ops)) * 8 * 8 * 9 * 2
+	nTable := int64(len(c03Ops)) * 8 * 8 * 9 * 4
 	fw.Register(&fw.Prop{
 		ID: "C03", Title: "Operators compute their defined results",
-		Rule: "cases: (a) exhaustive operator table: 18 operators (+ - * / % = != < <= > >= in and or & .. unary- ?:) x 8 x 8 operand kinds (number,string,boolean,null,array,object,function,missing) x 3 x 3 representative values x 2 supply modes (literal / input member or binding); " +
+		Rule: "cases: (a) exhaustive operator table: 18 operators (+ - * / % = != < <= > >= in and or & .. unary- ?:) x 8 x 8 operand kinds (number,string,boolean,null,array,object,function,missing) x 3 x 3 representative values x 4 supply modes (both literals / both input members or bindings / one of each); " +
 			"(b) fixed probes of the range limits; (c) PRNG-generated type-directed nested operator expressions (depth<=4, 1 in 12 operands deliberately ill-typed) over a number pool with 0,-0,fractions,2^53,1e308,5e-324 and a string pool with empty, numeric-looking, non-ASCII and astral strings, operands as literals or input members. " +
 			"Oracle: reference model table (value exact; error by EvalError.Type). non-trivial = every case (each has at least one operator); distinct by (program, input)",
 		Assumptions: []string{"JSON null is supplied as a literal or binding, never inside the input document (excluded by the property)", "numbers compare by float64 value; -0 equals 0"},
